@@ -14,7 +14,9 @@ separated by `;`, a list group is `nil`, `e` (empty, non-nil) or integers.
  argument is a window `off:len:cap` of it (or `nil`), see `C14Arena.lean`:
    diff D S1 S2 | intersect D S1 S2 | unique D S1 | uniquekey K D S1 | filter D S1 ; acc…
    diffip S1 S2 | intersectip S1 S2 | uniqueip S1 | uniquekeyip K S1 | filterip S1 ; acc…
-   copy A B S | subslice A B S | remove I S | appendsrc S ; v… | values K S1 S2 …
+   copy A B S | subslice A B S | remove I S | appendsrc S ; v… | values K S1 S2 … | equal S1 S2 | index V S | contains V S
+ `@ C14 arenaF v…` : the same with element type float64 / struct{F float64; Tag int}: cells are coded
+   (1000000 = NaN, 1000001 = -0), `==` is `floatEq` (NaN ≠ NaN, -0 == +0)
  answer: the result (`win off len [..]`, `fresh [..]`, `e`, `nil`) `|` the whole arena afterwards.
 
 `@ C14 flex C0` : a FlexSlice with `Values = make([]int, 0, C0)`; ops
@@ -289,7 +291,11 @@ def runCase (hdr : List String) (ops : List String) : List String :=
   | ["calls"] => "ok" :: ops.map fun l => call (toks l)
   | "arena" :: vs =>
     match ints? vs with
-    | some A => "ok" :: runArena (some A) ops
+    | some A => "ok" :: runArena intEq (some A) ops
+    | none => "bad-op" :: ops.map fun _ => "bad-op"
+  | "arenaF" :: vs =>   -- element type float64 (or a struct holding one): `==` is `floatEq`
+    match ints? vs with
+    | some A => "ok" :: runArena floatEq (some A) ops
     | none => "bad-op" :: ops.map fun _ => "bad-op"
   | ["flex", c] =>
     match c.toNat? with
